@@ -797,6 +797,27 @@ def component(name, tag):
         c.family_constraints += [z3.Implies(c.attr(st), inmin(st)) for st in c.states if st[0] == 0]
         c.family_constraints += c.take_pending_defs()
         return c
+    if name in ("NB3", "NB3r"):
+        # nested blocks: a <- (a, b), b <- (c), c <- (b).  Constrained so that the cycle {b, c} carries a stable motif of its
+        # own and a has a self-sustaining value that needs b: the motifs of the component then live in two blocks, one a
+        # proper superset of the other ({b,c} and {a,b,c}) - the shape block expansion has to filter for minimality
+        if name == "NB3r":      # the same shape with the cycle declared first: (b, c, a) -> variables 0, 1 cycle, 2 dependent
+            c = SymNet(3, wiring={0: (1,), 1: (0,), 2: (2, 0)}, tag=tag)
+            E = (None, None, None)
+            p, q = c.reg(0, 2, E)
+            c.family_constraints.append(fOr([p, q]))
+            c.family_constraints.append(fOr([c.trap(S) for S in c.subspaces if S[2] is None and S[0] is not None and S[1] is not None]))
+            c.family_constraints.append(fOr([fAnd([c.trap(S), fNot(c.trap((S[0], S[1], None)))]) for S in c.subspaces if S[2] is not None and (S[0] is None) == (S[1] is None)]
+                                            + [c.trap((None, None, 0)), c.trap((None, None, 1))]))
+            return c
+        c = SymNet(3, wiring={0: (0, 1), 1: (2,), 2: (1,)}, tag=tag)
+        E = (None, None, None)
+        p, q = c.reg(1, 0, E)
+        c.family_constraints.append(fOr([p, q]))                                                    # a really depends on b
+        c.family_constraints.append(fOr([c.trap(S) for S in c.subspaces if S[0] is None and S[1] is not None and S[2] is not None]))
+        c.family_constraints.append(fOr([fAnd([c.trap(S), fNot(c.trap((None, S[1], S[2])))]) for S in c.subspaces if S[0] is not None and (S[1] is None) == (S[2] is None)]
+                                        + [c.trap((0, None, None)), c.trap((1, None, None))]))
+        return c
     if name == "SRC1":
         c = SymNet(1, tag=tag)
         c.family_constraints.append(c.is_source(0, (None,)))
